@@ -15,11 +15,12 @@ import (
 // (histories), C17 (schedules) and C18 (caches).
 
 type call struct {
-	Fn    string  `json:"fn"`             // entry point
-	Elem  string  `json:"elem,omitempty"` // pointer of the element in the root document (expanders) or the $ref text (resolvers)
-	Root  string  `json:"root,omitempty"` // how the root is supplied: typed | value | generic | nil
-	Cache string  `json:"cache,omitempty"`
-	Opts  expOpts `json:"opts"`
+	Fn        string  `json:"fn"`             // entry point
+	Elem      string  `json:"elem,omitempty"` // pointer of the element in the root document (expanders) or the $ref text (resolvers)
+	Root      string  `json:"root,omitempty"` // how the root is supplied: typed | value | generic | nil
+	Cache     string  `json:"cache,omitempty"`
+	Opts      expOpts `json:"opts"`
+	EmptyBase bool    `json:"empty_base,omitempty"` // non-nil options whose RelativeBase is the empty string
 }
 
 type callResult struct {
@@ -136,6 +137,9 @@ func doCall(cs *expCase, cl call, cache spec.ResolutionCache, budget int) (r cal
 	loader := cs.loader(&r.Loads)
 	opts := &spec.ExpandOptions{RelativeBase: cs.Root, SkipSchemas: cl.Opts.Skip, ContinueOnError: cl.Opts.Cont,
 		AbsoluteCircularRef: cl.Opts.Abs, PathLoader: loader}
+	if cl.EmptyBase {
+		opts.RelativeBase = ""
+	}
 	optsBefore := optsDump(opts)
 	root := suppliedRoot(cs, cl.Root)
 	// entry points without an options argument use the package-level loader
